@@ -234,6 +234,10 @@ def build_registry(darsia, rng):
     add("Resize_array", [arr2], lambda: darsia.Resize(shape=tgt, interpolation="inter_area")(arr2))
     add("Resize_conservative", [V1], lambda: darsia.Resize(shape=tgt, interpolation="inter_area", **{"resize conservative": True})(V1))
     add("resize_fn", [A, B], lambda: darsia.resize(A, ref_image=B, interpolation="inter_linear"))
+    big = (2 * shp[0], 3 * shp[1])
+    rz_up = darsia.Resize(shape=big, interpolation="inter_area", **{"resize conservative": True})
+    add("Resize_conservative_refining_image", [V1], lambda: (rz_up(V1), rz_up(V1)))
+    add("Resize_conservative_refining_array", [arr2], lambda: rz_up(arr2))
     add("equalize_voxel_size", [A], lambda: darsia.equalize_voxel_size(A))
     add("uniform_refinement_up", [S1], lambda: darsia.uniform_refinement(S1, 1))
     add("uniform_refinement_down", [A], lambda: darsia.uniform_refinement(A, -1))
@@ -275,6 +279,13 @@ def build_registry(darsia, rng):
     wim = darsia.Image(np.full((4, 5), 2.0), space_dim=2, dimensions=list(mass1.dimensions), scalar=True)
     opts = {"num_iter": 3, "return_info": True}
     add("wasserstein_bregman_weighted", [mass1, mass2, wim, opts], lambda: darsia.wasserstein_distance(mass1, mass2, "bregman", weight=wim, options=opts))
+    # a weight that vanishes (exactly, or below any regularisation) in a part of the domain
+    wz = np.full((4, 5), 1.5)
+    wz[0, :2] = 0.0
+    wz[3, 4] = 1e-20
+    wzim = darsia.Image(wz, space_dim=2, dimensions=list(mass1.dimensions), scalar=True)
+    for meth_ in ("newton", "bregman"):
+        add(f"wasserstein_{meth_}_weight_with_zeros", [mass1, mass2, wzim], lambda meth_=meth_: darsia.wasserstein_distance(mass1, mass2, meth_, weight=wzim, options={"num_iter": 2}))
     add("wasserstein_emd", [mass1, mass2], lambda: darsia.wasserstein_distance(mass1, mass2, "cv2.emd"))
     # non-default back-ends with nested, caller-owned option dictionaries
     for meth in ("newton", "bregman"):
